@@ -104,6 +104,10 @@ def gen_cases(ctx):
     else:
         sigs = U2 + U3 + [random_sig(rng, 'abcde', 5) for _ in range(3000)]
         nflagsigs = 600
+    # parameter names of more than one letter, some of them spelled with the letters that are
+    # names of other parameters (a name is a whole string, never a bag of characters)
+    spell = ['a', 'b', 'ab', 'ba', 'self', 'e', 'f', 's']
+    sigs = sigs + [random_sig(rng, spell, 4) for _ in range(70 if ctx.quick else 700)]
     cases = []
     fz = id_of_name(FOREIGN)
     for idx, ps in enumerate(sigs):
